@@ -17,7 +17,9 @@ Print Assumptions inlines_nonvacuous.
 (* ---- 1. termination of the main loop (C01, inline half) ----
    FULL statements (kept visible): every iteration of `while subj.parse_inline(node) {}` that answers true moves
    `pos` forward, whatever the options; the whole inline phase of a block answers Ok (no Panic, no fuel exhaustion)
-   on NUL-free right-trimmed content whose line_offsets cover its lines. *)
+   on NUL-free right-trimmed content whose line_offsets cover its lines.
+   (inlines_total_full_statement is refuted as stated - missing premises, section 1e; proved: no fuel exhaustion
+   at all, 1f; all Panic sites but 16, 1g.) *)
 Definition parse_inline_advances_full_statement : Prop :=
   forall memo o u inp lo sl refmap maxref s s',
     parse_inline memo o u inp lo sl refmap maxref s = Ok (Some s') -> pos s < pos s'.
@@ -76,11 +78,8 @@ Print Assumptions inlines_total_partial.
    FULL statement: the inline phase of a block never answers OutOfFuel.  The fuel-carrying loops of the phase are
    the main loop (above), scan_to_closing_dollar / scan_to_closing_code_dollar, the rewind loop of
    handle_autolink_with, the backward walk of autolink_delim and the closer loop of process_emphasis (pe_loop).
-   PROVED for all of them but pe_loop.  GAP: pe_loop gets 2 |input| + 2 |stack| + 2 iterations; every iteration
-   either moves the closer up the stack or removes at least one byte from the closer's text node, so the bound
-   needs the invariant that the text nodes of the delimiters on the stack hold at most 2 |input| bytes in total
-   (and that their ids are distinct siblings), which is not proved; nor is the propagation lemma that no leaf
-   function (entity, url cleaning, ...) answers OutOfFuel (none of them carries fuel). *)
+   PROVED for all of them; pe_loop and the propagation lemma (no leaf function answers OutOfFuel) are in the
+   second wave: section 1f below proves inlines_fuel_full_statement (theorem inlines_fuel). *)
 Definition inlines_fuel_full_statement : Prop :=
   forall memo o u inp lo sl refmap maxref rs0,
     parse_inlines memo o u inp lo sl refmap maxref rs0 <> OutOfFuel.
@@ -122,8 +121,13 @@ Proof. exact find_opener_props. Qed.
 Print Assumptions process_emphasis_opener_matches.
 
 (* ---- 1d. Panic sites ----
-   FULL statement inlines_total_full_statement (above) is NOT proved.  The Panic sites of Model/Inlines.v fall in
-   four groups; what excludes each:
+   FULL statement inlines_total_full_statement (above) is NOT proved, and is FALSE as stated (its premises are too
+   weak: 1e; inlines_total_statement there is the corrected statement).  STATE AFTER THE SECOND WAVE (1e-1g below):
+   under the premises of 1g every Panic of parse_inlines is at one of 16 REMAINING sites (inlines_remaining_sites_are):
+   the 13 stack sites of group (iii) (all but process_emphasis:unreachable) and the 3 sites of the autolink rewind
+   (reachable on invalid UTF-8).  Groups (i) and (ii) are proved unreachable entirely (60 sites with the leaf
+   sites, inlines_unreachable_sites_are).  The first-wave analysis, kept:
+   The Panic sites of Model/Inlines.v fall in four groups; what excludes each:
    (i) local arithmetic (pos-1, endpos-openticks, slices of the input ...): excluded by pos <= |input| and by
        what the scanning helper just returned.  PROVED for handle_backticks (backticks_local_sites_unreachable:
        its five sites; a closer lies after the opening run and inside the input: backticks_closer_in_bounds);
@@ -272,3 +276,252 @@ Theorem refdef_title_dropped_witness :
   = Ok ([x22; x74; x22; x20; x6a; x75; x6e; x6b; x0a], [([x61], ([x2f; x75], []))]).
 Proof. exact refdef_title_dropped_lemma. Qed.
 Print Assumptions refdef_title_dropped_witness.
+
+(* ==================================================================================================================
+   C01, inline phase, second wave (Proofs/InlinesTotal2*.v).  The inventory of every Panic site of Model/Inlines.v
+   with the invariant that excludes it or its witness is the header of Proofs/InlinesTotal2.v. *)
+From V Require Spec.EscapeSpec.
+From V Require Import Proofs.InlinesTotal2.
+
+(* ---- 1e. the full statement above needs more premises ----
+   inlines_total_full_statement is FALSE of the model as stated: its premises allow contents the block phase never
+   hands over.  Four model-level witnesses (none is a defect of comrak: not producible through parse_document):
+   a blank first line (TAB LF x: parse_inline:endpos-1), a bare CR with one line offset (the premise counts LF
+   only: line_offsets[adjusted_line]), a reference budget above the maximum (RefMap::lookup subtraction), and
+   INVALID UTF-8 (< ? C3 http://a.b with autolink: the processing-instruction arm eats the h of the scheme, the
+   rewind of the autolink meets the HtmlInline: `expected text node before autolink colon`).
+   inlines_total_statement is the statement with the premises these witnesses show to be necessary. *)
+Theorem inlines_total_full_statement_refuted : ~ inlines_total_full_statement.
+Proof. exact inlines_total_old_statement_refuted. Qed.
+Print Assumptions inlines_total_full_statement_refuted.
+
+Definition inlines_total_statement : Prop := InlinesTotal2.inlines_total_statement.
+
+Theorem inlines_total_witness_blank_first_line :
+  parse_inlines true io_default oracle_ascii r1_input [0%N; 0%N] 1%N [] 100000%N 0%N
+  = Panic "inlines.rs:parse_inline:endpos-1".
+Proof. exact r1_value. Qed.
+Print Assumptions inlines_total_witness_blank_first_line.
+
+Theorem inlines_total_witness_bare_cr :
+  parse_inlines true io_default oracle_ascii r2_input [0%N] 1%N [] 100000%N 0%N
+  = Panic "inlines.rs:parse_inline:line_offsets[adjusted_line]".
+Proof. exact r2_value. Qed.
+Print Assumptions inlines_total_witness_bare_cr.
+
+Theorem inlines_total_witness_ref_budget :
+  parse_inlines true io_default oracle_ascii r3_input [0%N] 1%N [([x61], ([x2f; x75], []))] 0%N 1%N
+  = Panic "inlines.rs:RefMap::lookup:max_ref_size-ref_size".
+Proof. exact r3_value. Qed.
+Print Assumptions inlines_total_witness_ref_budget.
+
+(* valid UTF-8 of the content is needed *)
+Theorem inlines_total_witness_invalid_utf8 :
+  parse_inlines true io_autolink_only oracle_ascii r4_input [0%N] 1%N [] 100000%N 0%N
+  = Panic "inlines.rs:handle_autolink_with:expected text node before autolink colon"
+  /\ Spec.EscapeSpec.utf8_valid r4_input = false.
+Proof. exact r4_value. Qed.
+Print Assumptions inlines_total_witness_invalid_utf8.
+
+Theorem inlines_total_premises_each_needed :
+  (has_nul r1_input = false /\ Strings.rtrim_slice r1_input = r1_input /\ Spec.EscapeSpec.utf8_valid r1_input = true
+   /\ line_endings r1_input < 2 /\ first_line_not_blank r1_input = false)
+  /\ (has_nul r2_input = false /\ Strings.rtrim_slice r2_input = r2_input /\ Spec.EscapeSpec.utf8_valid r2_input = true
+      /\ first_line_not_blank r2_input = true /\ List.length (filter (beqb x0a) r2_input) < 1 /\ line_endings r2_input = 1)
+  /\ (has_nul r4_input = false /\ Strings.rtrim_slice r4_input = r4_input /\ first_line_not_blank r4_input = true
+      /\ line_endings r4_input < 1 /\ Spec.EscapeSpec.utf8_valid r4_input = false).
+Proof. exact inlines_total_premises_needed. Qed.
+Print Assumptions inlines_total_premises_each_needed.
+
+(* ---- 1f. the fuel of the inline phase (Proofs/InlinesTotal2Pe.v, InlinesTotal2Fuel.v, InlinesTotal2Inv.v,
+   InlinesTotal2Main.v) ----
+   PROVED: inlines_fuel_full_statement - the inline phase of a block NEVER answers OutOfFuel, for every option set,
+   oracle, content, line-offset table and reference map (no premise at all: a Panic is a different answer).
+   The two gaps named at 1b are closed:
+   * propagation: no leaf function and no arm of parse_inline answers OutOfFuel except through process_emphasis
+     inside close_bracket_match (InlinesTotal2Fuel.v);
+   * the closer loop: process_emphasis_fuel_bound below (measure: bytes of text under the ids of the stacked
+     non-quote delimiters + 2 * closers still to visit, lowered by >= 2 in every iteration), with the invariant
+     FInv of the parser state kept by every arm of parse_inline (the runs of the stacked delimiters are disjoint
+     stretches of the input in stack order, the Text items under a stacked id hold at most d_len bytes, stacked
+     ids are below the id counter and belong to one delimiter byte each, every stacked byte is an emphasis byte
+     under the options or a quote).  The last clause also excludes the model's `neither branch moves the closer`
+     answer of pe_loop (where the Rust loop would spin) and the Panic site process_emphasis:unreachable. *)
+From V Require Proofs.InlinesTotal2Pe Proofs.InlinesTotal2Inv Proofs.InlinesTotal2Main.
+
+Theorem inlines_fuel : inlines_fuel_full_statement.
+Proof. exact InlinesTotal2Main.inlines_fuel. Qed.
+Print Assumptions inlines_fuel.
+
+(* the closer loop alone: 2 |input| + 2 |stack| + 2 iterations suffice as soon as the ids of the stack are
+   injective up to the delimiter byte, every stacked byte is a delimiter byte under the options, and the texts
+   counted for the stacked non-quote delimiters hold at most 4 |input| bytes *)
+Theorem process_emphasis_fuel_bound :
+  forall o inp s n0 items ds bottom,
+    InlinesTotal2Pe.idinj ds ->
+    Forall (fun d => InlinesTotal2Pe.dchar_ok o (d_char d) = true) ds ->
+    InlinesTotal2Pe.sumf items ds <= 4 * List.length inp ->
+    process_emphasis o inp s n0 items ds bottom <> OutOfFuel.
+Proof. exact InlinesTotal2Pe.process_emphasis_fuel. Qed.
+Print Assumptions process_emphasis_fuel_bound.
+
+(* the invariant holds in every state the main loop reaches *)
+Theorem inlines_fuel_invariant :
+  forall memo o u inp lo sl refmap maxref rs0 fuel s,
+    List.length inp < fuel ->
+    inline_loop memo o u inp lo sl refmap maxref fuel (init_st sl rs0) = Ok s -> InlinesTotal2Inv.FInv o inp s.
+Proof. exact InlinesTotal2Main.inlines_fuel_invariant_lemma. Qed.
+Print Assumptions inlines_fuel_invariant.
+
+(* Panic site process_emphasis:unreachable (ob_index on a byte that is not a delimiter byte): never the answer of
+   pe_loop on a stack of delimiter bytes, hence never the answer of the final process_emphasis of parse_inlines *)
+Theorem pe_loop_unreachable_site :
+  forall o fuel s n0 items ob below cs site,
+    Forall (fun d => InlinesTotal2Pe.dchar_ok o (d_char d) = true) cs ->
+    pe_loop o fuel s n0 items ob below (hd_error cs) (tl cs) = Panic site ->
+    site <> "inlines.rs:process_emphasis:unreachable"%string.
+Proof. exact InlinesTotal2Pe.pe_loop_unreachable_site. Qed.
+Print Assumptions pe_loop_unreachable_site.
+
+Theorem inlines_total_partial_final_emphasis_unreachable :
+  forall memo o u inp lo sl refmap maxref rs0 s site,
+    inline_loop memo o u inp lo sl refmap maxref (S (List.length inp)) (init_st sl rs0) = Ok s ->
+    process_emphasis o inp s (nid s) (rev (sibs s)) (delims s) 0 = Panic site ->
+    site <> "inlines.rs:process_emphasis:unreachable"%string.
+Proof. exact InlinesTotal2Main.final_emphasis_unreachable_site. Qed.
+Print Assumptions inlines_total_partial_final_emphasis_unreachable.
+
+(* ---- 1g. which Panic sites the inline phase can answer (Proofs/InlinesTotal2Sites.v, InlinesTotal2Walk.v) ----
+   PROVED, every option set / oracle / reference map / memo switch: on right-trimmed content whose first line is not
+   blank and whose line endings (LF, CR LF, bare CR) are covered by the line-offset table, with the reference budget
+   within its maximum, a Panic of parse_inlines is at one of the 16 sites of `inlines_remaining_sites` (spelled out
+   in inlines_remaining_sites_are); the other 60 sites - of Model/Inlines.v, of the column arithmetic of
+   make_inline / end_column, of clean_title and the autolink leaf functions - are UNREACHABLE
+   (inlines_total_partial_unreachable).
+   Invariants carried through every arm of parse_inline, the main loop and both calls of process_emphasis:
+     CInv  column_offset = -(start of the current line) <= 0, that start <= pos, the byte in front of it is a line end
+           (so every column make_inline / end_column computes is >= 0: each arm makes its nodes at or after the
+           position it started from; the hard break reaches two bytes back, which are spaces, not the line end)
+     LInv  start_line <= line, and line - start_line + line endings still ahead < |line_offsets|
+           (handle_newline / the backslash break consume a line ending per line; adjust_node_newlines adds the LF
+           count of a slice that lies inside the consumed stretch; its index into the table is that count)
+     RInv  ref_size <= max_ref_size          FInv  (1f) stacked bytes are delimiter bytes
+   The premises are what the block phase hands over (Model/Parse.v run_leaves: content, line offsets, start line of
+   a Paragraph / Heading / TableCell; budget from 0) - that the block phase establishes them is NOT proved here.
+   No premise on NUL bytes or UTF-8 validity: the sites that need them are among the remaining ones.
+   What a re2c scanner answers is bounded generically (Proofs/InlinesTotal2Scan.v: a block of plain rules with
+   action `return Some(cursor)` answers a length between the minimal length of its regular expressions and the
+   length of its argument), which closes the slice sites of handle_pointy_brace / handle_close_bracket.
+   REMAINING (16), by the invariant that would exclude them:
+     (S) the stacks name Text siblings in stack order (13): insert_emph x8, process_emphasis closer / opener
+         text_mut().unwrap(), bracket inl_text not among the children x2, label from bracket position;
+     (T) the Text siblings in front of an autolink spell the scheme, needs valid UTF-8 (3): handle_autolink_with
+         last_child().unwrap(), expected text node before autolink colon [REACHABLE on invalid UTF-8: 1e],
+         end.column-reverse. *)
+From V Require Proofs.InlinesTotal2Sites Proofs.InlinesTotal2Walk.
+
+Definition inlines_remaining_sites : list String.string := InlinesTotal2Sites.remaining.
+
+Theorem inlines_remaining_sites_are :
+  inlines_remaining_sites =
+  [ "inlines.rs:insert_emph:opener.inl not among the siblings";
+    "inlines.rs:insert_emph:opener.inl.next_sibling().unwrap()";
+    "inlines.rs:insert_emph:text().unwrap()";
+    "inlines.rs:insert_emph:opener text as_bytes()[0]";
+    "inlines.rs:insert_emph:opener_num_chars-use_delims";
+    "inlines.rs:insert_emph:closer_num_chars-use_delims";
+    "inlines.rs:insert_emph:closer end.column-closer_num_chars";
+    "inlines.rs:insert_emph:opener end.column-use_delims";
+    "inlines.rs:process_emphasis:closer text_mut().unwrap()";
+    "inlines.rs:process_emphasis:opener text_mut().unwrap()";
+    "inlines.rs:close_bracket_match:bracket inl_text not among the children";
+    "inlines.rs:handle_close_bracket:bracket inl_text not among the children";
+    "inlines.rs:handle_close_bracket:label from bracket position";
+    "inlines.rs:handle_autolink_with:node.last_child().unwrap()";
+    "inlines.rs:handle_autolink_with:expected text node before autolink colon";
+    "inlines.rs:handle_autolink_with:end.column-reverse" ]%string.
+Proof. exact (eq_refl _). Qed.
+Print Assumptions inlines_remaining_sites_are.
+
+Theorem inlines_total_partial_sites :
+  forall memo o u inp lo sl refmap maxref rs0 site,
+    Strings.rtrim_slice inp = inp -> first_line_not_blank inp = true ->
+    line_endings inp < List.length lo -> (rs0 <= maxref)%N ->
+    parse_inlines memo o u inp lo sl refmap maxref rs0 = Panic site -> In site inlines_remaining_sites.
+Proof. exact InlinesTotal2Walk.inlines_total_partial_sites_lemma. Qed.
+Print Assumptions inlines_total_partial_sites.
+
+Theorem inlines_total_partial_unreachable :
+  forall memo o u inp lo sl refmap maxref rs0 site,
+    Strings.rtrim_slice inp = inp -> first_line_not_blank inp = true ->
+    line_endings inp < List.length lo -> (rs0 <= maxref)%N ->
+    In site InlinesTotal2Walk.excluded_sites ->
+    parse_inlines memo o u inp lo sl refmap maxref rs0 <> Panic site.
+Proof. exact InlinesTotal2Walk.inlines_total_partial_unreachable_lemma. Qed.
+Print Assumptions inlines_total_partial_unreachable.
+
+(* the list of the sites proved unreachable, spelled out *)
+Theorem inlines_unreachable_sites_are :
+  InlinesTotal2Walk.excluded_sites =
+  [ "inlines.rs:parse_inline:line-start.line";
+    "inlines.rs:parse_inline:line_offsets[adjusted_line]";
+    "inlines.rs:parse_inline:input[pos..endpos]";
+    "inlines.rs:parse_inline:endpos-1";
+    "inlines.rs:handle_newline:input[pos]";
+    "inlines.rs:handle_newline:input[pos] after CR";
+    "inlines.rs:handle_newline:pos-1";
+    "inlines.rs:handle_backticks:pos-1";
+    "inlines.rs:handle_backticks:endpos-openticks";
+    "inlines.rs:handle_backticks:buf";
+    "inlines.rs:handle_backticks:endpos-1";
+    "inlines.rs:handle_backticks:matchlen";
+    "inlines.rs:handle_backslash:unreachable";
+    "inlines.rs:handle_backslash:pos-1";
+    "inlines.rs:handle_entity:input[pos..]";
+    "inlines.rs:handle_entity:pos-1-len";
+    "inlines.rs:handle_entity:pos-1";
+    "inlines.rs:handle_pointy_brace:input[pos..]";
+    "inlines.rs:handle_pointy_brace:uri";
+    "inlines.rs:handle_pointy_brace:email";
+    "inlines.rs:handle_pointy_brace:contents";
+    "inlines.rs:make_autolink:end_column-1";
+    "inlines.rs:handle_pointy_brace:pos-1-matchlen";
+    "inlines.rs:handle_pointy_brace:pos-matchlen-1";
+    "inlines.rs:handle_pointy_brace:pos-1";
+    "inlines.rs:handle_delim:pos-numdelims";
+    "inlines.rs:handle_delim:contents";
+    "inlines.rs:handle_delim:pos-1";
+    "inlines.rs:scan_to_closing_dollar:pos-1";
+    "inlines.rs:scan_to_closing_dollar:input[pos-1]";
+    "inlines.rs:scan_to_closing_code_dollar:pos-1";
+    "inlines.rs:scan_to_closing_code_dollar:input[pos-1]";
+    "inlines.rs:handle_dollars:endpos-fence_length";
+    "inlines.rs:handle_dollars:buf";
+    "inlines.rs:handle_dollars:matchlen";
+    "inlines.rs:handle_dollars:pos-fence_length";
+    "inlines.rs:handle_dollars:pos-1";
+    "inlines.rs:adjust_node_newlines:pos-matchlen-extra";
+    "inlines.rs:adjust_node_newlines:pos-extra";
+    "inlines.rs:adjust_node_newlines:slice";
+    "inlines.rs:adjust_node_newlines:line-start.line";
+    "inlines.rs:adjust_node_newlines:parent_line_offsets[adjusted_line]";
+    "parser/inlines.rs:make_inline:try_from.unwrap";
+    "inlines.rs:end_column:try_from.unwrap";
+    "inlines.rs:process_emphasis:unreachable";
+    "inlines.rs:brackets[brackets_len - 1]";
+    "inlines.rs:RefMap::lookup:max_ref_size-ref_size";
+    "inlines.rs:handle_close_bracket:input[endurl..]";
+    "inlines.rs:handle_close_bracket:input[starttitle..]";
+    "inlines.rs:handle_close_bracket:input[endtitle..]";
+    "inlines.rs:handle_close_bracket:title";
+    "strings.rs:clean_title:title[1..title_len - 1]";
+    "inlines.rs:handle_wikilink:startpos-1";
+    "inlines.rs:label_backslash_escapes:start_column+offset-1";
+    "autolink.rs:www_match:i+link_end-1";
+    "inlines.rs:handle_autolink_with:skip-need_reverse";
+    "autolink.rs:check_domain:data.len() - 1";
+    "autolink.rs:autolink_delim:link_end - 2";
+    "autolink.rs:autolink_delim:data[new_end]";
+    "autolink.rs:autolink_delim:data[link_end - 1]" ]%string.
+Proof. exact (eq_refl _). Qed.
+Print Assumptions inlines_unreachable_sites_are.
